@@ -141,6 +141,30 @@ def null_fill(ctx, P, scope, rule="NULL-FILL", tus=None):
                                 nm = name_of(aa.kids[0])
                                 if nm:
                                     nulls.setdefault(nm, (fn, x))
+        # an array that holds ids (it is tested against TSK_NULL somewhere) is never tested with `> 0`, `!= 0`, `== 0`, `<= 0`:
+        # id 0 is a valid id, "none" is TSK_NULL
+        for fn2 in tu.funcs.values():
+            if fn2.body is None or not scope(key, fn2.name):
+                continue
+            kz = 0
+            for x2 in walk(fn2.body):
+                if x2.k == "BinaryOperator" and x2.op in (">", "<=", "==", "!="):
+                    for a, b in ((x2.kids[0], x2.kids[1]), (x2.kids[1], x2.kids[0])):
+                        if const_int(b) == 0 and estr(b) in ("0",):
+                            aa = strip(a)
+                            if aa is not None and aa.k == "ArraySubscriptExpr":
+                                base = strip(aa.kids[0])
+                                nm2 = None
+                                if base is not None and base.k == "MemberExpr":
+                                    nm2 = "." + (base.name or "")
+                                elif base is not None and base.k == "DeclRefExpr":
+                                    nm2 = fn2.name + ":" + (base.ref or "")
+                                ety = (aa.ty or "")
+                                if nm2 in nulls and ety in ("tsk_id_t", "int", "int32_t", "const tsk_id_t"):
+                                    n += 1
+                                    ctx.ob(rule, "%s|zero-test|%s@%d" % (fn2.name, nm2.split(":")[-1].lstrip("."), kz), False, tu.loc(x2),
+                                           "`%s` tests an id against 0: id 0 is a valid id and TSK_NULL (-1) means none" % estr(x2))
+                                    kz += 1
         for nm, (fn, x) in sorted(nulls.items()):
             if nm not in fills or not scope(key, fn.name):
                 continue
@@ -151,4 +175,176 @@ def null_fill(ctx, P, scope, rule="NULL-FILL", tus=None):
                    "%s is initialised with %s and tested against TSK_NULL" % (nm.lstrip("."), sorted(kinds)) if ok else
                    "%s is only zero-filled but its elements are compared with TSK_NULL (%s): an untouched entry reads as id 0"
                    % (nm.lstrip("."), tu.loc(x)))
+    return n
+
+
+# success shortcuts confirmed by reading: (function, condition) -> why skipping the rest is right
+SHORTCUT_OK = {
+    ("tsk_table_collection_deduplicate_sites", "(self->sites.num_rows == 0)"): "no sites: nothing to deduplicate (all later loops range over the sites)",
+    ("check_sites", "(num_sites == 0)"): "empty list is valid; the last-element test below would index [n - 1]",
+    ("check_positions", "(num_positions == 0)"): "empty list is valid; the last-element test below would index [n - 1]",
+    ("simplifier_record_edge", "skip"): "edge deliberately not recorded when the caller asked to skip it",
+    ("tsk_treeseq_kc_distance", "(ret != TSK_TREE_OK)"): "tree iteration finished (TSK_TREE_OK marks a valid tree)",
+    ("compute_two_tree_branch_state_update", "(b_len == 0)"): "b_len multiplies every contribution added below: all of them are zero",
+}
+
+
+def success_shortcuts(ctx, P, scope, rule="SHORTCUT", tus=None):
+    from sa.expr import is_assign
+    ctx.rule(rule, "an early SUCCESS exit (`if (cond) goto out;` / `return ret;` with no error assigned) bypasses everything the other "
+                   "rules establish about the main path.  Each one is either confirmed by reading (frozen with its reason), or is of "
+                   "the form `X == 0` for a count X such that every loop after it is bounded by X (the skipped code is vacuous).  "
+                   "`if (M == 0 || n < 2) goto out;` in front of a sweep that also handles edgeless trees is reported")
+    n = 0
+    for key in (tus or [k for k in LIB_TUS if k in ("tables", "trees", "genotypes", "stats", "convert")]):
+        tu = P.tus[key]
+        for fn in tu.funcs.values():
+            if fn.body is None or not scope(key, fn.name) or (fn.ret or "").strip() not in ("int", "tsk_id_t"):
+                continue
+            k = 0
+            for x in walk(fn.body):
+                if x.k != "IfStmt" or len(x.kids) < 2 or x.kids[1] is None:
+                    continue
+                then = x.kids[1]
+                stm = [y for y in walk(then) if y.k in ("GotoStmt", "ReturnStmt")]
+                if not stm or any(is_assign(y) or y.k == "CallExpr" for y in walk(then)):
+                    continue
+                s = tu.src(then)
+                if "TSK_ERR" in s or "KAS_ERR" in s:
+                    continue
+                cond = estr(x.kids[0])
+                if re.search(r"\bret\w* (!=|<|>) 0|\berr\w* (!=|<) 0|== NULL|\bret_id < 0", cond):
+                    continue
+                if stm[0].k == "ReturnStmt":
+                    rv = estr(stm[0].kids[0]) if stm[0].kids else ""
+                    if rv not in ("ret", "0", "(0)"):
+                        continue
+                # is `ret` still 0 here?  (an error assigned just before and tested elsewhere is not a success exit)
+                n += 1
+                key_ = "%s|%s" % (fn.name, cond)
+                if (fn.name, cond) in SHORTCUT_OK:
+                    ctx.ob(rule, key_, True, tu.loc(x), "confirmed: " + SHORTCUT_OK[(fn.name, cond)])
+                    continue
+                c = strip(x.kids[0])
+                ok, why = False, "`if %s` leaves %s early with success; not of the form `<count> == 0`" % (cond, fn.name)
+                if c is not None and c.k == "BinaryOperator" and c.op == "==" and "0" in (estr(c.kids[0]), estr(c.kids[1])):
+                    X = estr(c.kids[1]) if estr(c.kids[0]) == "0" else estr(c.kids[0])
+                    loops = [l for l in walk(fn.body) if l.k in ("ForStmt", "WhileStmt", "DoStmt") and l.b > x.e]
+                    open_ = [l for l in loops if X not in (estr(l.kids[2]) if l.k == "ForStmt" and len(l.kids) > 2 and l.kids[2] is not None
+                                                           else estr(l.kids[0]) if l.k == "WhileStmt" else "")
+                             and not any(l.b > o.b and l.e <= o.e for o in loops if o is not l)]
+                    ok = not open_
+                    why = "every later loop is bounded by %s: skipping is vacuous" % X if ok else \
+                        "`if %s` skips a loop at %s that is not bounded by %s: work is skipped that the empty case still needs" % (cond, tu.loc(open_[0]), X)
+                ctx.ob(rule, key_, ok, tu.loc(x), why)
+                k += 1
+    return n
+
+
+def ragged_range(ctx, P, scope, rule="RAGGED-RANGE", tus=None):
+    ctx.rule(rule, "a loop over the elements of row j of a ragged column runs from offset[j] to offset[j + 1] of the SAME offset array "
+                   "(or to start + length): `for (k = off[j]; k < <row length>; k++)` treats a length as an absolute end and skips "
+                   "every row but the first")
+    n = 0
+    for key in (tus or LIB_TUS):
+        tu = P.tus[key]
+        for fn in tu.funcs.values():
+            if fn.body is None or not scope(key, fn.name):
+                continue
+            k = 0
+            for lp in walk(fn.body):
+                if lp.k != "ForStmt" or len(lp.kids) < 3 or lp.kids[0] is None or lp.kids[2] is None:
+                    continue
+                i, c = strip(lp.kids[0]), strip(lp.kids[2])
+                if i is None or c is None or not (i.k == "BinaryOperator" and i.op == "=") or not (c.k == "BinaryOperator" and c.op in ("<", "!=")):
+                    continue
+                st = strip(i.kids[1])
+                if st is None or st.k != "ArraySubscriptExpr" or "offset" not in estr(st.kids[0]):
+                    continue
+                arr, idx = estr(st.kids[0]), estr(st.kids[1])
+                end = strip(c.kids[1])
+                et = estr(end) if end is not None else ""
+                ok = False
+                if end is not None and end.k == "ArraySubscriptExpr" and estr(end.kids[0]) == arr and estr(end.kids[1]) in ("(%s + 1)" % idx, "%s + 1" % idx):
+                    ok = True
+                elif end is not None and end.k == "BinaryOperator" and end.op == "+" and (estr(st) in (estr(end.kids[0]), estr(end.kids[1]))):
+                    ok = True
+                elif end is not None and end.k == "MemberExpr" and arr.endswith("_offset") and et == arr[:-len("_offset")] + "_length":
+                    ok = True       # from row j to the end of the column
+                elif end is not None and end.k == "DeclRefExpr":
+                    # a local: must be defined as offset[j + 1] or start + length
+                    ds = [x for x in walk(fn.body) if x.k == "BinaryOperator" and x.op == "=" and estr(x.kids[0]) == end.ref]
+                    def _end_ok(v):
+                        v = strip(v)
+                        if v is None:
+                            return False
+                        if v.k == "ArraySubscriptExpr":
+                            return estr(v.kids[0]) == arr and estr(v.kids[1]) in ("(%s + 1)" % idx, "%s + 1" % idx)
+                        if v.k == "BinaryOperator" and v.op == "+":
+                            return estr(st) in (estr(v.kids[0]), estr(v.kids[1]))
+                        return False
+                    ok = bool(ds) and all(_end_ok(x.kids[1]) for x in ds)
+                n += 1
+                ctx.ob(rule, "%s@%d|%s" % (fn.name, k, arr), ok, tu.loc(lp),
+                       "row %s of %s: [%s, %s)" % (idx, arr, estr(st), et) if ok else
+                       "loop starts at %s but ends at `%s`, which is not %s[%s + 1]" % (estr(st), et, arr, idx))
+                k += 1
+    return n
+
+
+def min_init(ctx, P, scope, rule="MIN-INIT", tus=None):
+    """first = MIN(j, first) over j in [0, N): the value that stands for 'none yet' must be >= N."""
+    from sa.guards import CountResolver
+    from .lib_mem import _loop_counter
+    ctx.rule(rule, "a running minimum over row ids (`x = TSK_MIN(j, x)` with j the counter of a loop over N rows) is initialised with "
+                   "a value outside the id range, i.e. >= N (N itself, resolved through locals, fields and casts): N - 1 is a valid "
+                   "id and makes 'no row refers to this' indistinguishable from 'the last row does'")
+    R = CountResolver(P)
+    n = 0
+    for key in (tus or LIB_TUS):
+        tu = P.tus[key]
+        for fn in tu.funcs.values():
+            if fn.body is None or not scope(key, fn.name):
+                continue
+            src = tu.src(fn.body)
+            if "TSK_MIN" not in src:
+                continue
+            k = 0
+            for lp in walk(fn.body):
+                if lp.k != "ForStmt" or len(lp.kids) < 5 or lp.kids[2] is None:
+                    continue
+                j = _loop_counter(lp)
+                cond = strip(lp.kids[2])
+                if not j or cond is None or cond.k != "BinaryOperator" or cond.op != "<":
+                    continue
+                bcls = R.classify(cond.kids[1], fn)
+                if bcls is None:
+                    continue
+                for x in walk(lp.kids[4]):
+                    if not (x.k == "BinaryOperator" and x.op == "="):
+                        continue
+                    rs = " ".join(tu.src(x.kids[1]).split())
+                    m = re.match(r"TSK_MIN\((.*)\)$", rs)
+                    if not m:
+                        continue
+                    args = macro_args("TSK_MIN(" + m.group(1) + ")")
+                    tgt_src = " ".join(tu.src(x.kids[0]).split())
+                    if len(args) != 2 or j not in [a.strip() for a in args] or tgt_src not in [a.strip() for a in args]:
+                        continue
+                    field = re.sub(r"^.*(\.|->)", "", tgt_src)
+                    # initial stores to the same field / variable outside this loop
+                    inits = [y for y in walk(fn.body) if y.k == "BinaryOperator" and y.op == "=" and not (lp.b <= y.b <= lp.e)
+                             and re.sub(r"^.*(\.|->)", "", " ".join(tu.src(y.kids[0]).split())) == field]
+                    for y in inits:
+                        cls = R.classify(y.kids[1], fn)
+                        n += 1
+                        if cls is None:
+                            ctx.ob(rule, "%s|%s@%d" % (fn.name, field, k), True, tu.loc(y), "initial value `%s` is not a row count (not judged)" % estr(y.kids[1]))
+                        else:
+                            ok = cls[0] == bcls[0] and cls[1] >= bcls[1]
+                            ctx.ob(rule, "%s|%s@%d" % (fn.name, field, k), ok, tu.loc(y),
+                                   "`%s` starts at count(%s)%+d, outside the ids 0 .. count(%s)%+d the loop offers" % (field, cls[0], cls[1], bcls[0], bcls[1] - 1) if ok else
+                                   "`%s` starts at count(%s)%+d, which is an id the loop over count(%s)%+d rows can offer (or another table's count)"
+                                   % (field, cls[0], cls[1], bcls[0], bcls[1]))
+                        k += 1
     return n
